@@ -1253,6 +1253,8 @@ def main(outfile):
 
     import py2lean_fsmtables                                     # separate module: FSM tables, __init__, _run_cb, _send_events, _event (C03)
     py2lean_fsmtables.main_fsmtables(os.path.join(os.path.dirname(outfile), 'TranslatedFsmTables.lean'), write_if_changed)
+    import py2lean_cblocks                                       # separate module: library CBlocks, constructors and argument passing (C01)
+    py2lean_cblocks.main_cblocks(os.path.join(os.path.dirname(outfile), 'TranslatedCBlocks.lean'), sys.modules[__name__])
 
 if __name__ == '__main__':
     main(sys.argv[1])
